@@ -87,21 +87,26 @@ CHECKS = {
         text=('~30k generated values per quick run over all converter pairs (StudyConfig incl. conditional depth 1..4, '
               'ProblemStatement, Trial, TrialSuggestion, Measurement, MetadataDelta, Suggest/EarlyStop request+decision): '
               'from_proto(to_proto(x)) == x under the stated equivalence and to_proto(from_proto(to_proto(x))) byte-identical; '
-              'a slice is written through CreateStudy/CreateTrial/CompleteTrial and read back.'),
-        note='Equivalence masks only the four documented non-transmitted fields; times to 1 microsecond; metrics compared as name-keyed maps.'),
+              'a slice is written through CreateStudy/CreateTrial/CompleteTrial and read back; received-then-edited configs (from_proto, '
+              'edit script over metadata / parameters / metrics / settings, resend) must arrive as edited; shards run under different '
+              'process time zones.'),
+        note='Equivalence masks only the four documented non-transmitted fields; instants compared exactly (microsecond resolution); metrics compared as name-keyed maps.'),
     'C11': dict(
         engine='value-gen', category='exploration', design='4/C11',
         technique='brute-force definitional Pareto oracle vs every Pareto routine and study-level optimal-trial query on generated point sets / histories',
         text=('14 point-set classes (lattices forcing ties/duplicates, +-inf, chains, antichains, float64-only distinctions) x naive, '
               'fast (5 thresholds x 2 bases), JAX, is_frontier/get_frontier (5 shard counts), is_pareto_optimal_against, pareto_rank '
-              '(xla, nsga2); study histories of 8 trial kinds through ListOptimalTrials (RAM+SQL), clients.optimal_trials, GetBestTrials.'),
+              '(xla, nsga2); study histories of 8 trial kinds through ListOptimalTrials (RAM+SQL), clients.optimal_trials, GetBestTrials, '
+              'with metric naming schemes, per-trial report orders, shuffled configuration order, 0..3 safety metrics reported or not per '
+              'trial, and near-tie value profiles (unit steps at 2^20, 2^-20 steps at 1, 2^-40 at 0, float64-only steps).'),
         note='JAX routines only see float32-exact values; NaN rows in raw point sets carry no verdict (outside the quantifier); safety-metric studies accept five readings.'),
     'C15': dict(
         engine='value-gen', category='exploration', design='4/C15',
         technique='round-trip / unit-interval / one-hot / decode-into-space monitors on all trial<->array converters over spaces x option tuples x points x arbitrary arrays',
         text=('96+48 option tuples of the Default/TrialToArray converters, padded converters (3x3 schedules), model-input converter, '
               'ProblemAndTrialsScaler, feature mapper, label converters; oracles computed from the plain space description '
-              '(vv.gen.member for decode-into-space with clipping on).'),
+              '(vv.gen.member for decode-into-space with clipping on); every array handed to a decoder must be bitwise unchanged and a second '
+              'decode of the same array must give the same result (labels in both documented shapes).'),
         note='Exactness demanded only where the dtype can represent the value; DOUBLE tolerance 8*eps*max(|lo|,|hi|) (relative for LOG, reflected for REVERSE_LOG).'),
     'C16': dict(
         engine='value-gen', category='exploration', design='4/C16',
